@@ -31,7 +31,7 @@ import vcfile  # noqa: E402
 
 REPO = os.environ.get("VP_REPO", "/repo")
 SAFETY = ["--bounds-check", "--pointer-check", "--pointer-overflow-check",
-          "--signed-overflow-check", "--div-by-zero-check"]
+          "--signed-overflow-check", "--div-by-zero-check", "--object-bits", "10"]
 MEM_BYTES = int(os.environ.get("VP_MEM_GB", "12")) * (1 << 30)
 CFG_OPTS = {"nr": [], "r": ["-R"], "c99": ["--emit=c99"]}
 CFG_TAGS = {"nr": {"nr", "cpp"}, "r": {"r", "cpp", "reent"}, "c99": {"c99", "reent"}}
@@ -299,7 +299,8 @@ def splice_unit(u, scratch, probes, wdir):
                     continue
                 tot = int(b.opts["total"]) if "total" in b.opts else None
                 c.add_loop_contract(fn, int(b.args[1]), b.args[2], b.text, tot)
-                nloops += 1
+                if fn in u.get("enforce", "").split():
+                    nloops += 1
             elif k == "body":
                 if fn in u.get("replace", "").split():
                     continue
@@ -441,16 +442,44 @@ def run_unit(u, scratch, probes, tier):
             res["why"] = "goto-instrument --dfcc failed: " + o[-2500:]
             return res
         cur = b_gb
-    unwind = u.get("unwind", "40")
+    unwind = u.get("unwind", "3")
     flags = list(SAFETY) if u.get("safety", "yes") == "yes" else []
-    flags += ["--unwind", unwind, "--unwinding-assertions"]
     flags += u.get("flags", "").split()
     tmo = int(u.get("timeout", "900"))
     if tier == "thorough":
         tmo *= 2
-    cmd = ["cbmc"] + flags + ["--json-ui", cur]
+    # The DFCC library's own loops (write-set bookkeeping) need a bound that
+    # depends on the number of assigns/frees targets.  Start small (a large global
+    # --unwind multiplies every instrumented assignment) and raise the bound only
+    # for the library loops whose unwinding assertion fails.
+    libsets = {}
+    total_t = 0.0
+    for attempt, K in enumerate([0, 10, 24, 64]):
+        uw = ["--unwind", unwind, "--unwinding-assertions"]
+        if libsets:
+            uw += ["--unwindset", ",".join("%s:%d" % (k, K) for k in sorted(libsets))]
+        cmd = ["cbmc"] + flags + uw + ["--json-ui", cur]
+        rc, o, t = run(cmd, timeout=tmo)
+        total_t += t
+        if rc == "timeout" or rc not in (0, 10):
+            break
+        more = set(re.findall(r'"property": "(__CPROVER_contracts_\w+)\.unwind\.(\d+)",\s*"sourceLocation": \{[^}]*?\},\s*"status": "FAILURE"', o, re.S))
+        if not more:
+            # pattern may not match the layout; fall back to a structural scan
+            pj = parse_cbmc_json(o)
+            if pj[0]:
+                more = set()
+                for pp in pj[0]:
+                    m = re.match(r"^(__CPROVER_contracts_\w+)\.unwind\.(\d+)$", pp.get("property", ""))
+                    if m and pp.get("status") == "FAILURE":
+                        more.add((m.group(1), m.group(2)))
+        if not more:
+            break
+        for fn, n in more:
+            libsets["%s.%s" % (fn, n)] = True
     res["cmds"].append(" ".join(cmd))
-    rc, o, t = run(cmd, timeout=tmo)
+    res["unwind_flags"] = uw
+    t = total_t
     res["solver_s"] = round(t, 2)
     with open(os.path.join(wdir, "cbmc.json"), "w") as f:
         f.write(o if isinstance(o, str) else "")
@@ -533,7 +562,7 @@ def trace_for(u, res, scratch):
     if not os.path.exists(cur):
         cur = os.path.join(wdir, "u.gb") if os.path.exists(os.path.join(wdir, "u.gb")) else os.path.join(wdir, "a.gb")
     flags = list(SAFETY) if u.get("safety", "yes") == "yes" else []
-    flags += ["--unwind", u.get("unwind", "40"), "--unwinding-assertions"] + u.get("flags", "").split()
+    flags += res.get("unwind_flags", ["--unwind", u.get("unwind", "3"), "--unwinding-assertions"]) + u.get("flags", "").split()
     cmd = ["cbmc"] + flags + ["--trace", "--json-ui"]
     for f in res["failed"][:3]:
         cmd += ["--property", f["property"]]
